@@ -15,7 +15,7 @@ import sigtree as st
 from common import correspond, frac_str
 
 TRUSTED = [
-    'Lean 4.33.0 kernel; axioms of every theorem in Props/C12.lean within {propext, Classical.choice, Quot.sound}',
+    'Lean 4.33.0 kernel; axioms of every theorem in Props/C12*.lean within {propext, Classical.choice, Quot.sound}',
     'harness/sigtree.py (tree generator, exact reference), harness/props/c12.py',
     'Driver.lean / Drv/Sig.lean tree evaluator (maps Python operator dispatch to model calls)',
     'numpy float64 arithmetic is exact on the generated domain (half-integer exponents, small dyadic coefficients)',
